@@ -143,6 +143,9 @@ def to_str(v):
     return int_to_str(v.z)
   if v.t.kind == 'U':
     return uf('str_of_%s' % v.t.args[0], [sv.zsort(v.t)], z3.StringSort())(v.z)
+  if v.t.kind == 'val':
+    # str() of a dynamically typed value: an uninterpreted function of the value
+    return uf('str_of_val', [sv.zsort(v.t)], z3.StringSort())(v.z)
   raise Unsupported('str() of %r' % (v.t,))
 
 
@@ -554,6 +557,10 @@ class Engine:
     return self.binop(op, a, b, st, n)
 
   def binop(self, op, a, b, st, n=None):
+    if isinstance(a, V) and a.t.kind == 'opt' and isinstance(op, (ast.Add, ast.Sub, ast.Mult, ast.Mod, ast.FloorDiv)):
+      a = self.unwrap(a, st, n, 'left operand')
+    if isinstance(b, V) and b.t.kind == 'opt' and isinstance(op, (ast.Add, ast.Sub, ast.Mult, ast.Mod, ast.FloorDiv)):
+      b = self.unwrap(b, st, n, 'right operand')
     ka, kb = a.t.kind, b.t.kind
     if ka == 'int' and kb == 'int':
       if isinstance(op, ast.Add):
@@ -757,6 +764,13 @@ class Engine:
       self.u.setdefault('_orders', set()).add(a.t.args[0])
       return {ast.Lt: lt(a.z, b.z), ast.LtE: z3.Not(lt(b.z, a.z)), ast.Gt: lt(b.z, a.z),
               ast.GtE: z3.Not(lt(a.z, b.z))}[type(op)]
+    if ka == 'val' and kb == 'val':
+      # ordering of dynamically typed values: two uninterpreted relations (no order axioms assumed;
+      # a TypeError between incomparable values is not modelled)
+      lt = uf('val_lt', [sv.zsort(a.t)] * 2, z3.BoolSort())
+      le = uf('val_le', [sv.zsort(a.t)] * 2, z3.BoolSort())
+      self.u.setdefault('_assumed', set()).add('ordering of dynamic values is uninterpreted; TypeError not modelled')
+      return {ast.Lt: lt(a.z, b.z), ast.LtE: le(a.z, b.z), ast.Gt: lt(b.z, a.z), ast.GtE: le(b.z, a.z)}[type(op)]
     raise Unsupported('compare %s on %r, %r' % (type(op).__name__, a.t, b.t))
 
   def contains(self, cont, x):
@@ -1101,6 +1115,15 @@ class Engine:
                                                z3.Select(arr, k) == e.z),
                                 patterns=[z3.Select(arr, k), e.z]))
       return sv.mk_list(lt, arr, sv.l_len(xs))
+    if name == 'map' and len(args) == 2 and isinstance(args[0], ast.Name) and args[0].id == 'str':
+      # map(str, xs), consumed once by join / list: the list [str(x) for x in xs]
+      comp = ast.ListComp(elt=ast.Call(func=ast.Name(id='str', ctx=ast.Load()), args=[ast.Name(id='m__x', ctx=ast.Load())],
+                                       keywords=[]),
+                          generators=[ast.comprehension(target=ast.Name(id='m__x', ctx=ast.Store()), iter=args[1],
+                                                        ifs=[], is_async=0)])
+      ast.copy_location(comp, n)
+      ast.fix_missing_locations(comp)
+      return self.ev(comp, st)
     if name == 'list':
       if not args:
         return V(Ty('list', [INT]), None, meta='empty')
@@ -1165,6 +1188,16 @@ class Engine:
                                                       lt(z3.Select(arr, i), z3.Select(arr, j)))))
       self.u.setdefault('_assumed', set()).add(
           'sorted(set): result lists exactly the members, each once, ascending')
+      return r
+    if v.t.kind == 'list' and v.meta != 'empty':
+      # sorted(list) as an uninterpreted function of the list value (same length); a TypeError of
+      # incomparable elements is not modelled
+      nv = normalise_list(v)
+      f = uf('sorted_%s' % sv._mangle(v.t), [sv.zsort(v.t)], sv.zsort(v.t), v.t)
+      r = V(v.t, f(nv.z))
+      self.assume(st, sv.l_len(r) == sv.l_len(nv))
+      self.u.setdefault('_assumed', set()).add(
+          'sorted(list): an uninterpreted function of the list value with the same length; TypeError not modelled')
       return r
     raise Unsupported('sorted(%r)' % (v.t,))
 
@@ -1271,6 +1304,8 @@ class Engine:
     cst.pc = st.pc
     for p, a in zip(params, args):
       t = sub.declared(p)
+      if t is not None and isinstance(a, V) and a.t.kind == 'opt' and t.kind != 'opt':
+        a = self.unwrap(a, st, n, 'argument %s' % p)     # obligation: the optional is not None here
       cst.env[p] = coerce(a, t) if t is not None else a
     for key in cu.get('fields', {}):
       if key in st.env:
@@ -1300,6 +1335,10 @@ class Engine:
       for key in cu.get('modifies', []):
         t = sub.declared(key)
         post_st.env[key] = sv.fresh(t, key)
+      # a callee that mutates an argument object in place (e.g. heapq on a list): the argument is
+      # havocked and constrained by the callee's postcondition, then written back to the caller's lvalue
+      for p_ in cu.get('modifies_args', []):
+        post_st.env[p_] = sv.fresh(sub.declared(p_), p_)
       res = sv.fresh(rt, 'ret_' + cu['name']) if rt is not None else sv.mk_none()
     sub.old_env = dict(cst.env)
     sub.bound = {'result': res}
@@ -1322,6 +1361,8 @@ class Engine:
     if not cu.get('pure'):
       for key in cu.get('modifies', []):
         st.env[key] = post_st.env[key]
+      for p_ in cu.get('modifies_args', []):
+        self.assign(n.args[params.index(p_)], post_st.env[p_], st)
     return res
 
   # ---------------------------------------------------------------- statements
@@ -1646,7 +1687,12 @@ class Engine:
               names.add(r)
           dn_ = dotted_name(n.func)
           if dn_ and dn_ in self.u.get('calls', {}):
-            names.update(self.reg[self.u['calls'][dn_]].get('modifies', []))
+            cu_ = self.reg[self.u['calls'][dn_]]
+            names.update(cu_.get('modifies', []))
+            for p_ in cu_.get('modifies_args', []):
+              r = root_name(n.args[cu_['params'].index(p_)])
+              if r:
+                names.add(r)
           # calls of contracted methods: their modifies
           if isinstance(n.func.value, ast.Name) and n.func.value.id == 'self':
             cls = self.u.get('cls')
@@ -2053,7 +2099,7 @@ def parse_expr(text):
 
 
 MUTATORS = {'append', 'extend', 'add', 'update', 'remove', 'insert', 'pop', 'clear', 'discard'}
-BUILTINS = {'len', 'str', 'isinstance', 'set', 'list', 'min', 'max', 'abs', 'sorted', 'print',
+BUILTINS = {'map', 'len', 'str', 'isinstance', 'set', 'list', 'min', 'max', 'abs', 'sorted', 'print',
             'range', 'int', 'dict', 'tuple'}
 SPEC_BUILTINS = {'isspace', 'intval', 'strval', 'text_of'}
 EXC_NAMES = {'Exception', 'RuleCompileException', 'ParsingException', 'FunctorError',
